@@ -108,27 +108,16 @@ pub struct MemTok {}
 pub struct IoError {}
 impl MemTok {
   pub fn of(a: &Arena) -> (r: MemTok) { MemTok {} }
-  /// ASSUMED contract of Memory::truncate(allocated, size) (Vec: new zeroed buffer + copy of the first `allocated`
-  /// bytes; anon map: same; file map: re-map).  Checked bounded by the Kani harness `truncate_vec_*`.
+  /// Memory::truncate(allocated, size) as the Arena::truncate wrapper sees it.  The contract text is the file the REAL
+  /// Memory::truncate is proved against in U_memory (units/contracts/memory_truncate*.contract): assumed here, proved there.
   #[verifier::external_body]
   pub fn truncate(&self, st: &mut St, allocated: usize, size: usize)
-    requires allocated as int <= old(st)@.bytes.len(), allocated <= size, size as int <= u32::MAX as int, // [C18]
-    ensures
-      final(st).hdr == old(st).hdr, final(st).list == old(st).list,
-      final(st)@.sentinel == old(st)@.sentinel, final(st)@.writable == old(st)@.writable, final(st)@.lo == old(st)@.lo,
-      final(st)@.bytes.len() == size as int,
-      final(st)@.bytes.subrange(0, allocated as int) == old(st)@.bytes.subrange(0, allocated as int),
+//@@include contracts/memory_truncate.contract
   { unimplemented!() }
-  /// memmap variant: may fail with an I/O error, then nothing changed
+  /// memmap variant: may fail with an I/O error (the state after an I/O failure is not specified)
   #[verifier::external_body]
   pub fn truncate_io(&self, st: &mut St, allocated: usize, size: usize) -> (r: Result<(), IoError>)
-    requires allocated as int <= old(st)@.bytes.len(), allocated <= size, size as int <= u32::MAX as int, // [C18]
-    ensures
-      r.is_err() ==> *final(st) == *old(st),
-      r.is_ok() ==> final(st).hdr == old(st).hdr && final(st).list == old(st).list
-        && final(st)@.sentinel == old(st)@.sentinel && final(st)@.writable == old(st)@.writable && final(st)@.lo == old(st)@.lo
-        && final(st)@.bytes.len() == size as int
-        && final(st)@.bytes.subrange(0, allocated as int) == old(st)@.bytes.subrange(0, allocated as int),
+//@@include contracts/memory_truncate_io.contract
   { unimplemented!() }
   #[verifier::external_body]
   pub fn as_mut_ptr(&self, st: &St) -> (r: *mut u8) { unimplemented!() }
